@@ -92,6 +92,10 @@ def ex_root(lv):
 
 def check(ctx):
     p = ctx.prog
+    # no state survives from one call to the next in a function-local static
+    no_static_state(ctx, 'state.no_static_locals')
+    # no constructor of the classes this property computes with leaves a member indeterminate
+    members_initialised(ctx, 'init.members', ['hep::integrand', 'hep::multi_channel_integrand'], 2)
     ctx.assume('engine.discard(n) is equivalent to n calls of the engine; std::generate_canonical '
                'calls the engine exactly k = max(1, ceil(b / log2 R)) times (installed implementation '
                'is analysed for k, not for the loop itself)')
@@ -286,4 +290,6 @@ def check(ctx):
     # the generator stored after an iteration is at calls x d x usage also on every MPI rank: the
     # skips before and after a rank's share are the split formulas (shared with C16)
     share(ctx, 'C16', 'R6/C16.', ['R1.', 'R2.'])
+    # the per-call usage the MPI drivers skip with is the documented amount (shared with C04)
+    share(ctx, 'C04', 'R7/C04.', ['R2.usage'])
 
